@@ -519,12 +519,34 @@ def priv_layout(ctx, rep, rule):
     facts = ctx.facts
 
     def rng_of(t):
-        # Index(base, Range*) -> (base term, (start, end)) with None for open ends
+        # Index(base, Range*) -> (base term, (start, end)) with None for open ends; the halves of split_at(_mut) likewise
         if t[0] == "call" and ((t[1] or "").endswith("::index") or (t[1] or "").endswith("::index_mut")) and len(t[2]) == 2 and t[2][1][0] == "agg":
             r = t[2][1]
             d = dict(r[3])
             return t[2][0], (d.get("start"), d.get("end"), r[1].split("::")[-1])
+        pc = piece(t)
+        if pc is not None and (pc[1] != 0 or pc[2] is not None):
+            b, s_, e_ = pc
+            return b, (("const", s_) if s_ else None, ("const", e_) if e_ is not None else None, "Range")
         return None, None
+
+    def piece(t):
+        """(base, start, end|None) of a slice obtained by split_at / split_at_mut / constant range indexing."""
+        if t[0] == "f" and t[2] in ("0", "1") and t[1][0] == "call" and ((t[1][1] or "").endswith("::split_at_mut") or (t[1][1] or "").endswith("::split_at")) \
+                and len(t[1][2]) == 2:
+            n = _cv(facts, t[1][2][1])
+            inner = piece(t[1][2][0]) or (t[1][2][0], 0, None)
+            if not isinstance(n, int):
+                return None
+            b, s_, e_ = inner
+            return (b, s_, s_ + n) if t[2] == "0" else (b, s_ + n, e_)
+        if t[0] == "call" and ((t[1] or "").endswith("::index") or (t[1] or "").endswith("::index_mut")) and len(t[2]) == 2 and t[2][1][0] == "agg":
+            d = dict(t[2][1][3])
+            a_, b_ = _cv(facts, d.get("start")), _cv(facts, d.get("end"))
+            if (a_ is None or isinstance(a_, int)) and (b_ is None or isinstance(b_, int)):
+                inner = piece(t[2][0]) or (t[2][0], 0, None)
+                return (inner[0], inner[1] + (a_ or 0), inner[1] + b_ if b_ is not None else inner[2])
+        return None
 
     def cst(x):
         if x is None:
@@ -977,8 +999,8 @@ def buffer_err(ctx, rep, rule):
                             used = True
             rep.check(rule, "%s|result of %s#%d" % (p, cp.split("::")[-1], blk.idx), used, "propagated", "the Result of %s is dropped: an OutOfBuffer failure would go "
                       "unnoticed and a truncated message be sent" % cp.split("::")[-1], body.loc(blk.term["line"]), obligation=True)
-    if n < 40:
-        rep.violation(rule, "floor", "only %d buffer-push calls found on the send path, floor is 40" % n)
+    if n < 20:
+        rep.violation(rule, "floor", "only %d buffer-push calls found on the send path, floor is 20" % n)
 
 
 def buffer_owner(ctx, rep, rule):
@@ -1049,8 +1071,8 @@ def nested_lengths(ctx, rep, rule):
                           "(wrong under privacy, where the cipher's buffer already holds the padding)", body.loc(b.term["line"]), obligation=True)
             else:
                 rep.inconclusive(rule, key, "length operand %s not recognised" % flow.fmt(t0)[:80], body.loc(b.term["line"]))
-    if n < 14:
-        rep.violation(rule, "floor", "only %d push_tag_len calls in encoders, floor is 14" % n)
+    if n < 7:
+        rep.violation(rule, "floor", "only %d push_tag_len calls in encoders, floor is 7" % n)
 
 
 # ---------------------------------------------------------------------------- C03.mirror / C15.mirror
@@ -1163,8 +1185,14 @@ def layout_mirror(ctx, rep, rule):
         common = [n for n in dec_order if n in enc_order]
         enc_common = [n for n in enc_order if n in common]
         key = "%s|field order" % short
+        rep.info(rule, short + "|orders", "decoder %s / encoder %s" % (dec_order, enc_order))
         if len(common) < 2:
             rep.inconclusive(rule, key, "fewer than two fields recognised on both sides (decoder %s, encoder %s)" % (dec_order, enc_order), enc.loc())
             continue
+        lost = [n for n in dec_order if n not in enc_order]
+        if len(dec_order) >= 2 and len(enc_order) >= 2:
+            rep.check(rule, "%s|fields written" % short, not lost, "every field the decoder reads is written by the encoder",
+                      "the decoder reads %s from the wire but the encoder never serialises %s (it writes %s): another field's value takes its place" %
+                      (dec_order, lost, enc_order), enc.loc(), obligation=True)
         rep.check(rule, key, common == enc_common, "wire order %s on both sides" % common,
                   "the decoder reads %s but the encoder emits %s: the two are not inverses of each other" % (common, enc_common), enc.loc(), obligation=True)
